@@ -430,6 +430,21 @@ func (w *pedWorld) mutateResp(p *party, b *pdkg.ResponseBundle) []pdkg.Packet {
 		if len(leaving) > 0 && t.Bool("byz.pick", 700) {
 			hs = leaving
 		}
+		// dealers whose OLD index is the NEW index of a renumbered staying member: old and new index
+		// spaces overlap numerically, and code that compares the wrong one goes unnoticed while indices
+		// coincide (seed C11j: a staying member skipped "its own" justification bundle by new index)
+		var collide []*party
+		for _, q := range hs {
+			for _, h := range w.parties {
+				if h != q && h.honest() && h.inOld() && h.inNew() && h.oidx != h.nidx && h.nidx == q.oidx {
+					collide = append(collide, q)
+					break
+				}
+			}
+		}
+		if len(collide) > 0 && t.Bool("byz.renum", 600) {
+			hs = collide
+		}
 		if len(hs) > 0 {
 			q := hs[t.Intn("byz.pick", len(hs))]
 			found := false
